@@ -279,7 +279,7 @@ Step_C06 ==
             THEN /\ Issued = {}
                  /\ bal' = bal
                  /\ ctx'[e.id].state = "paused"
-            ELSE /\ {<<r[4], req'[r].prov>> : r \in Issued} = {<<i - 1, E[i]>> : i \in DOMAIN E}
+            ELSE /\ {req'[r].prov : r \in Issued} = Range(E)
                  /\ Cardinality(Issued) = Len(E)
                  /\ \A r \in Issued : req'[r].fee <= c.cap
 
@@ -452,6 +452,15 @@ Inv_C12 ==
            /\ ~inflight => c.bstate = "completed"
 
 RespCbs(s) == SelectSeq(s, LAMBDA x : x.kind = "resp")
+\* the same outputs, each as often (the order in which a module receives them is not part of the property)
+SameBag(s, t) == /\ Len(s) = Len(t)
+                 /\ \A x \in Range(s) \cup Range(t) :
+                       Cardinality({i \in DOMAIN s : s[i] = x}) = Cardinality({i \in DOMAIN t : t[i] = x})
+\* exactly one response callback, for context id, with these outputs and this error flag
+OneRespCb(s, want) ==
+    /\ Len(RespCbs(s)) = 1
+    /\ RespCbs(s)[1].id = want.id /\ RespCbs(s)[1].err = want.err
+    /\ SameBag(RespCbs(s)[1].outs, want.outs)
 StateCbs(s) == SelectSeq(s, LAMBDA x : x.kind = "state")
 
 Step_C12 ==
@@ -463,7 +472,7 @@ Step_C12 ==
              done == ctx'[id].bstate = "completed" /\ c.bstate = "running"
          IN /\ StateCbs(cb') = <<>>
             /\ IF done /\ c.module # ""
-               THEN RespCbs(cb') = <<RespCb(id, c.batch, OutputsOf(resp', id, c.batch), c.bthr)>>
+               THEN OneRespCb(cb', RespCb(id, c.batch, OutputsOf(resp', id, c.batch), c.bthr))
                ELSE RespCbs(cb') = <<>>
             /\ done <=> (c.respCount + 1 = c.reqCount)
     ELSE IF e.name = "ExpireBatch" /\ e.id \in DOMAIN ctx
@@ -471,7 +480,7 @@ Step_C12 ==
              c == ctx[id]
          IN /\ StateCbs(cb') = <<>>
             /\ IF c.bstate = "running" /\ c.module # ""
-               THEN RespCbs(cb') = <<RespCb(id, c.batch, OutputsOf(resp, id, c.batch), c.bthr)>>
+               THEN OneRespCb(cb', RespCb(id, c.batch, OutputsOf(resp, id, c.batch), c.bthr))
                ELSE RespCbs(cb') = <<>>
     ELSE IF e.name = "StartBatch" /\ e.id \in DOMAIN ctx
     THEN LET c == ctx[e.id]
